@@ -57,3 +57,51 @@ Fixpoint hop_urls (u : urlc) (rs : list resp) : list urlc :=
 Definition own_credentials (login : option (str * str)) (u : urlc) (v : str) : Prop :=
   exists lu lp, (login = Some (lu, lp) \/ (lu = [] /\ lp = []))
                 /\ v = basic_value (pick (u_user u) lu) (pick (u_pass u) lp).
+
+(* ---------------------------------------------------------------- *)
+(* round 2: vocabulary of the full statements                        *)
+(* ---------------------------------------------------------------- *)
+(* a field name as it may appear on the wire: non-empty, printable ASCII, no
+   space, no colon *)
+Definition token (s : str) : Prop := s <> [] /\ Forall (fun ch => 32 < ch /\ ch < 127 /\ ch <> 58) s.
+
+(* names are tokens, values carry no CR / LF *)
+Definition fields_tok (f : nvr) : Prop :=
+  forall n v, In (n, v) (nv_get_all f) -> token n /\ no_crlf v.
+
+(* what the theorems assume about the user-supplied part of a request (the fields
+   the request factory puts on EVERY request: --user-agent, --header, --referer,
+   Accept-Encoding ...): a dict, names tokens, values CR/LF free, and none of the
+   three fields wpull derives per URL *)
+Definition base_ok (base : nvr) : Prop :=
+  nvr_wf base /\ fields_tok base /\ lacks s_Host base /\ lacks s_Cookie base /\ lacks s_Authorization base.
+
+(* what is assumed about the cookie-jar oracle: the header value it hands out has no CR / LF *)
+Definition jar_ok (jar : nat -> urlc -> jans) : Prop :=
+  forall t u v, jar t u = JSome v -> no_crlf v.
+
+Definition parent_ok (parent : option urlc) : Prop :=
+  match parent with Some p => url_clean p | None => True end.
+
+(* THE WIRE FORMAT.  [b] is a request head with this method, target and field list:
+   request line, one line per field, blank line; nothing in any line can be taken
+   for a line end, the target has no space, names are tokens. *)
+Definition request_head (b : list N) (method target : str) (fl : list (str * str)) : Prop :=
+  b = method ++ [32] ++ target ++ [32] ++ s_version ++ crlf
+        ++ List.concat (map (fun p => wire_line p ++ crlf) fl) ++ crlf
+  /\ (method = s_GET \/ method = s_POST)
+  /\ clean target
+  /\ Forall (fun p => token (fst p) /\ no_crlf (snd p) /\ no_crlf (wire_line p)) fl.
+
+(* values of the fields with a given name in a field list *)
+Definition fl_values (n : str) (fl : list (str * str)) : list str :=
+  map snd (filter (fun p => str_eqb (fst p) n) fl).
+
+(* the proxy flag of the exchange in which each request is written *)
+Definition hop_full (rs : list resp) : list bool := map r_full rs.
+
+(* the same URL with other user-info: used to say that a text does not depend on it *)
+Definition with_userinfo (u : urlc) (a b a' b' : str) : urlc :=
+  {| u_scheme := u_scheme u; u_defport := u_defport u; u_hostname := u_hostname u; u_ipv6 := u_ipv6 u;
+     u_port := u_port u; u_path := u_path u; u_query := u_query u;
+     u_user := a; u_pass := b; u_user_enc := a'; u_pass_enc := b' |}.
